@@ -47,8 +47,18 @@ def norm(node: ast.AST) -> str:
         text = ast.unparse(node)
     except Exception:  # pragma: no cover
         text = type(node).__name__
-    text = " ".join(text.split())
-    return text if len(text) <= 160 else text[:157] + "..."
+    return " ".join(text.split())
+
+
+def short(node_or_text) -> str:
+    """Construct key form of a node: normalised text capped at 160 characters."""
+    t = node_or_text if isinstance(node_or_text, str) else norm(node_or_text)
+    return t if len(t) <= 160 else t[:157] + "..."
+
+
+def text(node: ast.AST) -> str:
+    """Full (untruncated) normalised source text of a node."""
+    return " ".join(ast.unparse(node).split())
 
 
 class FuncInfo:
